@@ -399,11 +399,18 @@ class Parser:
                     raise JSONPathSyntaxError(
                         "leading zero in index selector", token=stream.current
                     )
+                try:
+                    index = int(stream.current.value)
+                except ValueError as err:
+                    # An integer with an exponent, for example.
+                    raise JSONPathSyntaxError(
+                        f"invalid index {stream.current.value!r}", token=stream.current
+                    ) from err
                 list_items.append(
                     IndexSelector(
                         env=self.env,
                         token=stream.current,
-                        index=int(stream.current.value),
+                        index=index,
                     )
                 )
             elif stream.current.kind == TOKEN_BARE_PROPERTY:
